@@ -252,11 +252,11 @@ theorem ok_step {s : Srv} (h : OkAll s) (e : Ev) : OkAll (step Code.fixed s e).1
           cases hr : p.rtsp
           · simp only [Bool.false_eq_true, ↓reduceIte]
             split
-            · exact OkAll.set h p.stream (Grp.ok_addRtmpPull (h _ g hg) a) (by simp)
+            · exact OkAll.set h p.stream (Grp.ok_addRtmpPull (h _ g hg) Code.fixed a) (by simp)
             · exact Srv.ok_delPull (s := s.modP a _) (OkAll.same h (by simp)) _ _
           · simp only [↓reduceIte]
             split
-            · exact OkAll.set h p.stream (Grp.ok_addRtspPull (h _ g hg) a) (by simp)
+            · exact OkAll.set h p.stream (Grp.ok_addRtspPull (h _ g hg) Code.fixed a) (by simp)
             · exact Srv.ok_delPull (s := s.modP a _) (OkAll.same h (by simp)) _ _
     · exact h
   case pullDone a =>
@@ -270,12 +270,12 @@ theorem ok_step {s : Srv} (h : OkAll s) (e : Ev) : OkAll (step Code.fixed s e).1
     unfold stopPull; split
     · exact h
     · rename_i g hg
-      exact OkAll.set h st (Grp.ok_stopPull (h _ g hg)) (by simp)
+      exact OkAll.set h st (Grp.ok_stopPull (h _ g hg) Code.fixed) (by simp)
   case kick st x =>
     unfold kick; split
     · exact h
     · rename_i g hg
-      exact OkAll.set h st (Grp.ok_kick (h _ g hg) (kkind s x) x) (by simp)
+      exact OkAll.set h st (Grp.ok_kick (h _ g hg) Code.fixed (kkind s x) x) (by simp)
   case tick st n =>
     unfold tick; split
     · exact h
